@@ -288,6 +288,7 @@ def bfs(universe, fee, depth, scale, deposit, ops, rate=0.0, on_state=None, max_
     outcomes = set()
     viol = []
     capped = False
+    last_hist = ()
     if on_state:
         on_state(frontier[0][0], ref0, (), 0)
     while frontier:
@@ -332,11 +333,13 @@ def bfs(universe, fee, depth, scale, deposit, ops, rate=0.0, on_state=None, max_
                 while len(per_depth) <= d:
                     per_depth.append(0)
                 per_depth[d] += 1
+                last_hist = hist + (op,)
                 frontier.append((nsb, nref, hist + (op,)))
                 if on_state:
                     on_state(nsb, nref, hist + (op,), d)
     return {"states": len(seen), "transitions": transitions, "per_depth": per_depth,
-            "distinct_nlv": len(outcomes), "violations": viol, "capped": capped}
+            "distinct_nlv": len(outcomes), "violations": viol, "capped": capped,
+            "last_history": [list(o) for o in last_hist]}
 
 
 def replay_history(universe, fee, scale, deposit, hist, rate=0.0):
